@@ -167,7 +167,7 @@ func init() {
 		Title: "Shutdown always completes: no hang, no panic, channels closed",
 		Explain: "Decides structural necessary conditions of clean shutdown: WaitGroup Add/Done pairing of the fan-out helpers (C12.pairing; the pipeline groups are covered by C01/C03/C07 rules that this property shares); a frozen table of close() sites per channel field with their once/defer attributes, so that a second closer or a closer outside its sync.Once is reported (C12.close-sites); the close/wait hand-shakes of client, broker, offset manager, heartbeat, partition consumer and subscription manager (C12.handshakes); every blocking select of the long-running loops has a case on its component's shutdown channel (C12.dying); for channels closed by their only sender, the sender table (C12.who-sends); the closure handed to a sync.Once in a Close path has no return that skips teardown its normal exit performs (C12.once-complete); every subscription of a broker worker that gives up is handed back to its dispatcher exactly once, dying ones included — the hand-over is what lets a closing partition consumer finish (C03.redispatch, shared). " +
 			"NOT covered: absence of deadlock in general, send/close races that need a happens-before argument (consumerGroup.errors, partitionConsumer.errors/trigger).",
-		Rules: []func(*Ctx){c12Pairing, c12CloseSites, c12OnceComplete, c12LockReleased, c12Handshakes, c12Dying, c12WhoSends, c01Shutdown, c01Markers, c03Redispatch},
+		Rules: []func(*Ctx){c12Pairing, c12CloseSites, c12OnceComplete, c12LockReleased, c12Refcount, c12Handshakes, c12Dying, c12WhoSends, c01Shutdown, c01BrokerShutdown, c01Markers, c03Redispatch},
 	})
 }
 
@@ -513,6 +513,70 @@ func c12LockReleased(c *Ctx) {
 			c.Check(!esc, rule, fn, "released:"+kind, cl, "the lock is released on every path (or by a defer)",
 				"a path leaves the function with the mutex still locked: every later operation on this component, Close included, blocks forever", path)
 		})
+	}
+}
+
+// c12Refcount: a partition consumer holds one reference on its broker worker exactly while child.broker is
+// non-nil.  The worker's input is closed when the count reaches zero; a reference given back twice takes a
+// sibling's reference away, the worker exits under it and the sibling can never be closed.
+func c12Refcount(c *Ctx) {
+	p := c.P
+	rule := "C12.refcount"
+	c.Doc(rule, "partitionConsumer.dispatcher: every unrefBrokerConsumer is applied to child.broker under child.broker != nil, and inside the dispatch loop it is followed on every path of the iteration by child.broker = nil before dispatch() is called; child.broker is otherwise stored only from refBrokerConsumer's result")
+	c.Floor(rule, 3)
+	fn := c.NeedFn(rule, "partitionConsumer.dispatcher")
+	if fn == nil {
+		return
+	}
+	fi := Info(fn)
+	brokerF := FieldLoad("partitionConsumer.broker")
+	unref := p.CallTo("consumer.unrefBrokerConsumer")
+	setNil := StoreTo(IsNil(), "partitionConsumer.broker")
+	us := fi.Find(unref)
+	if len(us) == 0 {
+		c.Unresolved(rule, "unrefBrokerConsumer in partitionConsumer.dispatcher")
+	}
+	for _, u := range us {
+		a := callArgs(u)
+		reg := WholeFn(fn)
+		inLoop := fi.InnermostLoop(itemBlock(u))
+		if inLoop != nil {
+			// the outermost loop (over child.trigger)
+			for _, l2 := range fi.Loops {
+				if l2.Blocks[itemBlock(u)] && len(l2.Blocks) > len(inLoop.Blocks) {
+					inLoop = l2
+				}
+			}
+			reg = fi.Iteration(inLoop)
+		}
+		g, path := reg.Guarded(u, Cmp{token.NEQ, brokerF, IsNil()})
+		okArg := len(a) == 2 && brokerF(a[1])
+		c.Check(g && okArg, rule, fn, "unref-what-is-held", u.Instr(), "the reference given back is child.broker's, under child.broker != nil", "unrefBrokerConsumer is called with something else than a non-nil child.broker: a reference is given back that is not held", path)
+		if inLoop != nil {
+			esc, pth := reg.From(u.After()).Escape(setNil)
+			it, pth2 := reg.From(u.After()).MustPrecede(setNil, p.CallTo("partitionConsumer.dispatch"))
+			if esc {
+				pth2 = pth
+			}
+			c.Check(!esc && it.IsZero(), rule, fn, "unref-then-forget", u.Instr(), "after giving the reference back child.broker is set to nil before the re-dispatch",
+				"inside the dispatch loop a reference is given back while child.broker keeps pointing at the worker: when the re-dispatch fails, the next round (or the exit path) gives the same reference back again — the count reaches zero under a sibling partition consumer, the worker exits and the sibling's Close never completes", pth2)
+		}
+	}
+	// who sets child.broker
+	for _, f := range p.Fns {
+		if f.Pkg != p.Sarama {
+			continue
+		}
+		for _, s := range Info(f).Find(StoreTo(nil, "partitionConsumer.broker")) {
+			st := s.In.(*ssa.Store)
+			if IsNil()(st.Val) {
+				continue
+			}
+			if _, isAlloc := fieldChain(st.Addr)[0].base.(*ssa.Alloc); isAlloc {
+				continue
+			}
+			c.Check(p.ResultOf(0, "consumer.refBrokerConsumer")(st.Val), rule, f, "broker-from-ref", st, "child.broker is the worker returned by refBrokerConsumer", "child.broker is set to a worker that was not obtained from refBrokerConsumer: the partition consumer uses a worker it holds no reference on", nil)
+		}
 	}
 }
 
